@@ -339,7 +339,7 @@ theorem C06_resume_resends_client_v5 {cfg : Cfg} {s : St} {inp : List Nat} {pb' 
       (fits cfg.pw (step cfg s (.recv inp parse)).s.mpsSend s.store).map (·.2) ∧
     (step cfg s (.recv inp parse)).s.store = fits cfg.pw (step cfg s (.recv inp parse)).s.mpsSend s.store := by
   have e : step cfg s (.recv inp parse) =
-      (sendStored (propsFold connackRecvProp
+      (resendStored (propsFold connackRecvProp
         { cfg := cfg, s := { ({ s with pb := pb' } : St) with status := .connected } } p.props)).push (.recv p) := by
     rw [step_recv_of_delivers h, ht, hv, hp]
     simp [dispatchRecv, hv, prV5Connack, hst, hrc, hsp]
@@ -347,11 +347,45 @@ theorem C06_resume_resends_client_v5 {cfg : Cfg} {s : St} {inp : List Nat} {pb' 
     { cfg := cfg, s := { ({ s with pb := pb' } : St) with status := .connected } } p.props
   rcases hstore with hs | ⟨_, hm⟩
   · rw [e]
-    simp only [push_ev, push_s, sends_append, sendStored_sends, sendStored_store, sendStored_mpsSend,
+    simp only [push_ev, push_s, sends_append, resendStored_sends, resendStored_store, resendStored_mpsSend,
+      sendStored_sends, sendStored_store, sendStored_mpsSend,
       connackRecvProp_mpsSend_cfg, hs,
       propsFold_frame (fun c => sends c.ev) connackRecvProp connackRecvProp_sends]
     simp
   · exact absurd hm hsei
+
+/-- the context `send_stored` runs in when a CONNACK(success, session present) is received: `s`
+    with status `connected` (v3.1.1), resp. that with the CONNACK's properties applied (v5.0) -/
+def resumeCtx (cfg : Cfg) (s : St) (pb' : Framing.PB) (p : Pkt) : C :=
+  if s.ver = 4 then { cfg := cfg, s := { ({ s with pb := pb' } : St) with status := .connected } }
+  else propsFold connackRecvProp
+    { cfg := cfg, s := { ({ s with pb := pb' } : St) with status := .connected } } p.props
+
+/-- **C06 (4)**, client, the whole event list of the resuming call (fix 999e935): the events up to
+    and including those of `send_stored` (the stored packets that fit, in store order, as
+    `RequestSendPacket`; a `NotifyPacketIdReleased` for each dropped oversize entry), then **at
+    most one** `RequestTimerReset(PingreqSend)` — the re-arm of the keep-alive timer after the
+    retransmission — then the delivery of the CONNACK.  The packets sent and their order
+    (`C06_resume_resends_client_v3/_v5`) are unchanged by the fix. -/
+theorem C06_resume_events_client {cfg : Cfg} {s : St} {inp : List Nat} {pb' : Framing.PB} {fh : Nat}
+    {data : List Nat} (parse : Nat → Nat → List Nat → Except Nat Pkt) {p : Pkt}
+    (h : Delivers cfg s inp pb' fh data) (ht : fh / 16 = 2) (hv : s.ver = 4 ∨ s.ver = 5)
+    (hp : parse s.ver fh data = .ok p) (hrc : p.rc = some 0) (hsp : p.sp = true) (hst : s.status ≠ .connected) :
+    ∃ t, (t = [] ∨ ∃ ms, t = [Ev.timerReset .pingreqSend ms]) ∧
+      (step cfg s (.recv inp parse)).ev = (sendStored (resumeCtx cfg s pb' p)).ev ++ t ++ [.recv p] := by
+  rw [step_recv_of_delivers h, ht, hp]
+  have key : ∀ c0 : C, ∃ t, (t = [] ∨ ∃ ms, t = [Ev.timerReset .pingreqSend ms]) ∧
+      ((resendStored c0).push (.recv p)).ev = (sendStored c0).ev ++ t ++ [.recv p] := by
+    intro c0
+    rcases resendStored_ev_cases c0 with e | ⟨ms, e⟩
+    · exact ⟨[], .inl rfl, by rw [push_ev, e]; simp⟩
+    · exact ⟨_, .inr ⟨ms, rfl⟩, by rw [push_ev, e]⟩
+  rcases hv with hv | hv
+  · simp only [dispatchRecv, hv, if_true, prV3Connack, hst, if_false, hrc, hsp, resumeCtx]
+    exact key _
+  · have h54 : ¬ (5 : Nat) = 4 := by decide
+    simp only [dispatchRecv, hv, prV5Connack, hst, if_false, hrc, hsp, resumeCtx, h54, if_true]
+    exact key _
 
 /-- **C06 (4)**, server: a successful CONNACK with session present accepted for sending: the
     `RequestSendPacket` events are the CONNACK itself followed by the stored packets that fit, in
